@@ -189,6 +189,30 @@ def _log_perm_equal(a, b):
         return False
 
 
+_FLOATQ = [x('<float?>')[1:], x('&lt;float?&gt;')[1:]]
+
+
+def _float_wild_equal(a, b):
+    """the model prints <float?> for a float whose display the case's table does not give (floats that
+    arise from template literals): accept any number text there"""
+    if not any(f in a for f in _FLOATQ):
+        return False
+    pa, pb = a.split(':'), b.split(':')
+    if len(pa) != len(pb):
+        return False
+    for u, v in zip(pa, pb):
+        if u == v:
+            continue
+        if not (u.startswith('x') and v.startswith('x') and any(f in u for f in _FLOATQ)):
+            return False
+        pat = re.escape(u[1:])
+        for f in _FLOATQ:
+            pat = pat.replace(re.escape(f), '(?:2d|2b|2e|65|45|3[0-9])+')
+        if not re.fullmatch(pat, v[1:]):
+            return False
+    return True
+
+
 def obs_equal(m, i, line=''):
     """model observation list vs implementation observation list (strings)"""
     if m is None or i is None:
@@ -204,6 +228,8 @@ def obs_equal(m, i, line=''):
         if a == b:
             continue
         if len(_HASH_SUBEXPR.findall(line)) >= 2 and _log_perm_equal(a, b):
+            continue
+        if _float_wild_equal(a, b):
             continue
         return False
     return True
